@@ -33,8 +33,9 @@ ATOMS = [":a", ":b", ":k1", ":k2", "1", "2", "42", "-7", "3.5", "\"s\"", "\"long
 
 
 class Gen:
-    def __init__(self, rng, nvars=8, nstmts=40, light=False):
+    def __init__(self, rng, nvars=8, nstmts=40, light=False, sympool=None):
         self.light = light
+        self.sympool = sympool or {}      # hash-low-bits class -> names (from harness/C01/symnames.c, the tree's own string hash)
         self.r = rng
         self.nv = nvars
         self.ns = nstmts
@@ -79,7 +80,64 @@ class Gen:
         self.tag += 1
         t = "t%d" % self.tag
         a, b, c = self.v(), self.v(), self.v()
-        k = r.below(42)
+        k = r.below(48)
+        if k >= 47:
+            # a worker thread (own VM and heap; the schedule applies there too) that allocates, collects and sends a result
+            # back through a thread channel; only atoms travel into the thread
+            self.note("worker-thread")
+            n = r.range(3, 40)
+            return ("(do (def tc (ev/thread-chan 4)) (ev/thread (fn [&] (def acc (seq [i :range [0 %d]] @[i (string \"%s-\" i) (keyword \"wk\" i) %s])) "
+                    "(def tb (tabseq [x :in acc] (x 2) (x 1))) %s (ev/give tc [(length acc) ((acc %d) 1) (tb :wk%d) (length (string/join (map |($ 1) acc)))])) nil :n) "
+                    "(def junk (seq [j :range [0 %d]] @[j])) (show \"%s\" (ev/take tc)))"
+                    % (n, t, self.atom(), r.choice(["(gccollect)", ""]), r.below(n), r.below(n), r.range(1, 30), t))
+        if k >= 45:
+            # buffered channel driven round its item ring: gives and takes interleaved so that the read position ends up
+            # numerically above the write position, items built inside a helper (reachable only through the ring),
+            # collections / allocation while they are buffered; what is left stays in the channel held by a pool variable
+            self.note("chan-ring")
+            lim = r.range(2, 7)
+            ops, cnt, nxt = [], 0, 0
+            for _ in range(r.range(5, 16)):
+                c2 = r.below(10)
+                if c2 < 5 and cnt < lim:
+                    ops.append("(fill %d)" % nxt)
+                    nxt += 1
+                    cnt += 1
+                elif c2 < 8 and cnt > 0:
+                    ops.append("(drain)")
+                    cnt -= 1
+                elif c2 == 8:
+                    ops.append("(gccollect)")
+                else:
+                    ops.append("(def junk (seq [j :range [0 %d]] @[j (string \"jk\" j)]))" % r.range(1, 40))
+            return ("(do (def ch (ev/chan %d)) (defn fill [i] (ev/give ch @[(string \"%s-\" i) i @{:k (string \"in-\" i)} %s]) nil) "
+                    "(defn drain [] (show \"%s\" (ev/take ch))) %s (set %s ch) (show \"%s-left\" (ev/count ch)))"
+                    % (lim, t, b, t, " ".join(ops), a, t))
+        if k >= 42 and self.sympool:
+            # symbol-cache probe chains: keywords / symbols whose hashes collide at a chosen bucket (last bucket: the chain
+            # wraps to bucket 0; bucket 0; last-but-one; an arbitrary one), some garbage, some referenced; allocation /
+            # collection; then every name is interned again and compared with the referenced objects
+            self.note("symcache-collide")
+            cls = r.choice(sorted(self.sympool))
+            pool = self.sympool[cls]
+            n = min(len(pool), r.range(2, 6))
+            start = r.below(len(pool) - n + 1)
+            names = pool[start:start + n]
+            mk = r.choice(["keyword", "keyword", "symbol"])
+            steps = []
+            kept = []
+            for i, nm in enumerate(names):
+                if i == 0 and r.chance(2, 3) or i > 0 and r.chance(1, 4):
+                    steps.append("(drop \"%s\")" % nm)
+                else:
+                    steps.append("(array/push kept (%s \"%s\"))" % (mk, nm))
+                    kept.append(nm)
+            grow = 0 if self.light else r.choice([0, 0, 0, 300])
+            return ("(do (defn drop [n] (%s n) nil) (def kept @[]) %s %s (def tab (tabseq [q :in kept] q (string \"v-\" q))) %s "
+                    "(def junk (seq [j :range [0 %d]] (string \"sj-\" j))) "
+                    "(each n [%s] (def again (%s n)) (print \"%s \" n \" \" (not (nil? (index-of again kept))) \" \" (get tab again))) (set %s kept))"
+                    % (mk, ("(def fl (seq [j :range [0 %d]] (keyword \"%s-f-\" j)))" % (grow, t)) if grow else "", " ".join(steps),
+                       r.choice(["(gccollect)", "", ""]), r.range(1, 60), " ".join("\"%s\"" % x for x in names), mk, t, a))
         if k >= 40:
             # one duplex connection with a reader and a writer fiber suspended on it at once; every reference is dropped
             self.note("duplex-two-ops")
@@ -247,6 +305,6 @@ class Gen:
         return "\n".join(lines) + "\n"
 
 
-def generate(rng, nstmts=40, light=False):
-    g = Gen(rng, nvars=rng.range(4, 9), nstmts=nstmts, light=light)
+def generate(rng, nstmts=40, light=False, sympool=None):
+    g = Gen(rng, nvars=rng.range(4, 9), nstmts=nstmts, light=light, sympool=sympool)
     return g.program(), g.kinds
